@@ -109,9 +109,9 @@ def run_stages(case, deadline=60.0):
         finally: st["depth"] -= 1
     dt = {"int64": np.int64, "int32": np.int32, "float": float}[case.get("dtype", "int64")]
     def go():
-        P1 = np.array(case["P1"], dtype=dt); P2 = np.array(case["P2"], dtype=dt)
+        P1 = lay(np.array(case["P1"], dtype=dt), case.get("layout")); P2 = lay(np.array(case["P2"], dtype=dt), case.get("layout"))
         vdt = case.get("vdtype", "int64")      # integer encoding in which the caller stores the valuations
-        V1 = np.array(case["V1"], dtype=vdt); V2 = np.array(case["V2"], dtype=vdt)
+        V1 = lay(np.array(case["V1"], dtype=vdt), case.get("layout")); V2 = lay(np.array(case["V2"], dtype=vdt), case.get("layout"))
         snap = [a.copy() for a in (P1, P2, V1, V2)]
         n = P1.shape[0]; irv = Irving(zero_indexed=case.get("zi", True))
         iv1, iv2 = IntegerValuationProfile.of(V1), IntegerValuationProfile.of(V2)
